@@ -521,10 +521,62 @@ def summarise(recs):
     return fired, silent, skipped, bad
 
 
+SAFE_KINDS = ('negate-if', 'split-and', 'guard-to-else', 'intro-temp', 'pos-to-kw', 'annotate', 'rename-field')
+VARIANTS_PER_PROPERTY = 48
+
+
+def refactoring_sweep(pid: str, seed: int = 1):
+    """Specificity controls generated on the fly: behaviour-preserving rewrites of the hand-written runtime closure that are safe by
+    construction (tools/refactors.py: negated branches, split conjunctions, guard clauses turned into else, named sub-expressions,
+    keyword arguments, annotated assignments, renamed fields).  The property's check must stay silent on every one of them.
+    -> (number silent, list of descriptions of variants that raised an alarm or broke the analysis)"""
+    import random
+    sys.path.insert(0, os.path.join(VERIF, 'tools'))
+    import refactors as rf
+    rf.REPO = REPO
+    specs = rf.enumerate_variants(None, 2, seed, SAFE_KINDS)
+    random.Random(seed).shuffle(specs)
+    specs = specs[:VARIANTS_PER_PROPERTY]
+
+    def one(spec):
+        rel, qual, k, kind = spec
+        tmp = tempfile.mkdtemp(prefix='mxsa-variant-')
+        try:
+            root = os.path.join(tmp, 'repo')
+            subprocess.check_call(f"cd {REPO} && git ls-files -z | rsync -a --from0 --files-from=- {REPO}/ {root}/", shell=True)
+            try:
+                if kind in ('rename-function', 'rename-field', 'annotate'):
+                    what = rf.program_wide(kind, rel, qual, root)
+                else:
+                    src = open(os.path.join(REPO, rel), encoding='utf-8').read()
+                    new_src, what = rf.rewrite(src, rel, qual, k, rf.TARGETS[rel], kind)[:2]
+                    compile(new_src, rel, 'exec')
+                    open(os.path.join(root, rel), 'w', encoding='utf-8').write(new_src)
+            except Exception:
+                return None          # this rewrite does not apply at that place
+            ev = os.path.join(tmp, 'ev')
+            os.makedirs(ev)
+            env = dict(os.environ, MXSA_REPO=root, MXSA_EVIDENCE_DIR=ev)
+            r = subprocess.run([os.path.join(VERIF, 'check'), pid, '--tier', 'quick', '--quiet'], capture_output=True, text=True, env=env)
+            ok = r.returncode == 0 and 'VIOLATION' not in r.stdout
+            return ok, f"{kind} {rel}::{qual}#{k} ({str(what)[:60]}): rc={r.returncode}"
+        finally:
+            shutil.rmtree(tmp, ignore_errors=True)
+    with ThreadPoolExecutor(max_workers=16) as ex:
+        res = [r for r in ex.map(one, specs) if r is not None]
+    return sum(1 for ok, _ in res if ok), [d for ok, d in res if not ok]
+
+
 def run(pid: str) -> int:
     """Thorough tier of one property: run its controls, append the outcome to the evidence file, exit 2 when a control misbehaves."""
     recs = run_controls(only_prop=pid)
     fired, silent, skipped, bad = summarise(recs)
+    try:
+        seed = int(os.environ.get('VERIF_SEED', '1') or 1)
+    except ValueError:
+        seed = 1
+    n_silent, alarmed = refactoring_sweep(pid, seed)
+    bad = bad + [f"behaviour-preserving variant raised an alarm: {d}" for d in alarmed]
     ev_path = os.path.join(os.environ.get('MXSA_EVIDENCE_DIR') or os.path.join(VERIF, 'evidence'), f"{pid}.json")
     try:
         ev = json.load(open(ev_path))
@@ -534,12 +586,15 @@ def run(pid: str) -> int:
         cov['controls_silent'] = silent
         cov['controls_skipped'] = skipped
         cov['controls_misbehaved'] = bad
+        cov['generated_refactoring_variants_silent'] = n_silent
+        cov['generated_refactoring_variants_alarmed'] = alarmed
         cov['evaluations'] = cov.get('evaluations', 0) + len(fired) + len(silent)
         json.dump(ev, open(ev_path, 'w'), indent=1, ensure_ascii=False)
     except Exception as e:        # pragma: no cover
         print(f"ANALYSIS-ERROR property={pid}: cannot update evidence with control results: {e}")
         return 2
-    print(f"{pid} [thorough] sensitivity controls: {len(fired)} fired as required, {len(silent)} stayed silent as required, {len(skipped)} skipped, {len(bad)} misbehaved")
+    print(f"{pid} [thorough] sensitivity controls: {len(fired)} fired as required, {len(silent)} stayed silent as required, {len(skipped)} skipped, {len(bad)} misbehaved; "
+          f"{n_silent} generated behaviour-preserving variants stayed silent")
     for b in bad:
         print(f"ANALYSIS-ERROR property={pid}: control {b}")
     return 2 if bad else 0
